@@ -175,6 +175,15 @@ where
             .await
             .map_err(|e| self.handle_quic_stream_error(e))?;
 
+        //= https://www.rfc-editor.org/rfc/rfc9114#section-5.2
+        //# Endpoints MUST NOT initiate new requests or promise new pushes on the
+        //# connection after receipt of a GOAWAY frame from the peer.
+        // The GOAWAY may have been processed while this call was waiting for a stream
+        if let Some(error) = self.check_peer_connection_closing() {
+            quic::SendStream::<B>::reset(&mut stream, Code::H3_REQUEST_CANCELLED.value());
+            return Err(error);
+        };
+
         //= https://www.rfc-editor.org/rfc/rfc9114#section-4.2
         //= type=TODO
         //# Characters in field names MUST be
